@@ -22,7 +22,7 @@ CHECKS = {
   'C17': ('model_checking',
           'TLA+ spec GinExc.tla (propagation and message composition through nested wrapper frames, class descriptors, named deviations) model-checked with TLC incl. an expected-violation control; the predicate is observed on every builtin exception class and six user classes raised through real configurables',
           'TLC checks the intended design (same class, all attributes, traceback, one suffix per frame innermost first, pass-through of non-Exceptions) over nesting depth <= 3, six class descriptors and both raise sites, and shows that the recorded deviations violate C17_Attrs; the harness raises every builtin exception class constructible here plus user classes (required __init__ / __new__ arguments, __slots__, custom __str__, same-named reloaded classes) at depth 1-3 and observes class, MRO, every public attribute, traceback and message.',
-          'Three recorded findings (args, C-level members, required __new__ arguments) are listed in known_findings.json and suppressed by structural signature only. The quantification over classes is an enumeration by the harness.',
+          'The quantification over classes is an enumeration by the harness (every builtin exception class constructible in this interpreter plus user classes); each observation is additionally validated by TLC as a trace of GinExc. The former findings F13 / F14 are fixed (known_findings.json).',
           'DESIGN.md section 6 C17'),
 
   'C14': ('model_checking',
